@@ -376,6 +376,11 @@ func (r *rewriter) stmt(s ast.Stmt) ast.Stmt {
 		return s
 	}
 	switch x := s.(type) {
+	case *ast.SelectStmt:
+		if sw := r.selectStmt(x); sw != nil {
+			return sw
+		}
+		return s
 	case *ast.SendStmt:
 		r.site(x, "chan.send")
 		return &ast.ExprStmt{X: &ast.CallExpr{Fun: r.vs("Send"), Args: []ast.Expr{x.Chan, x.Value}}}
@@ -416,6 +421,96 @@ func (r *rewriter) stmt(s ast.Stmt) ast.Stmt {
 		}
 	}
 	return s
+}
+
+// selectStmt: a select whose clauses are sends, receives from a context's Done channel and
+// an optional default becomes
+//
+//	switch vsel_ := vsched.Select(hasDefault, vsched.CaseSend(ch, v), vsched.CaseRecv(ctx.Done())); vsel_.I { case 0: ...; case 1: ... }
+//
+// (one scheduling point; which ready clause fires is an explored choice). Selects with other
+// receive clauses (channels fed from outside the scheduler, e.g. the file watcher) are left alone.
+func (r *rewriter) selectStmt(x *ast.SelectStmt) ast.Stmt {
+	isCtxDone := func(e ast.Expr) bool {
+		call, ok := e.(*ast.CallExpr)
+		if !ok || len(call.Args) != 0 {
+			return false
+		}
+		sel, ok := call.Fun.(*ast.SelectorExpr)
+		if !ok || sel.Sel.Name != "Done" {
+			return false
+		}
+		tv, ok := r.info.Types[sel.X]
+		return ok && tv.Type != nil && tv.Type.String() == "context.Context"
+	}
+	recvOf := func(st ast.Stmt) (ch ast.Expr, as *ast.AssignStmt) {
+		switch c := st.(type) {
+		case *ast.ExprStmt:
+			if u, ok := c.X.(*ast.UnaryExpr); ok && u.Op == token.ARROW {
+				return u.X, nil
+			}
+		case *ast.AssignStmt:
+			if len(c.Rhs) == 1 {
+				if u, ok := c.Rhs[0].(*ast.UnaryExpr); ok && u.Op == token.ARROW {
+					return u.X, c
+				}
+			}
+		}
+		return nil, nil
+	}
+	for _, c := range x.Body.List {
+		cc := c.(*ast.CommClause)
+		switch st := cc.Comm.(type) {
+		case nil, *ast.SendStmt:
+		default:
+			ch, _ := recvOf(st)
+			if ch == nil || !isCtxDone(ch) {
+				return nil
+			}
+		}
+	}
+	r.site(x, "select")
+	r.tmpN++
+	res := ast.NewIdent(fmt.Sprintf("vsel%d_", r.tmpN))
+	args := []ast.Expr{ast.NewIdent("false")}
+	sw := &ast.SwitchStmt{Body: &ast.BlockStmt{}}
+	n := 0
+	var def *ast.CaseClause
+	for _, c := range x.Body.List {
+		cc := c.(*ast.CommClause)
+		if cc.Comm == nil {
+			args[0] = ast.NewIdent("true")
+			def = &ast.CaseClause{Body: cc.Body}
+			continue
+		}
+		clause := &ast.CaseClause{List: []ast.Expr{&ast.BasicLit{Kind: token.INT, Value: fmt.Sprint(n)}}}
+		n++
+		if snd, ok := cc.Comm.(*ast.SendStmt); ok {
+			args = append(args, &ast.CallExpr{Fun: r.vs("CaseSend"), Args: []ast.Expr{snd.Chan, snd.Value}})
+			clause.Body = cc.Body
+		} else {
+			ch, as := recvOf(cc.Comm)
+			args = append(args, &ast.CallExpr{Fun: r.vs("CaseRecv"), Args: []ast.Expr{ch}})
+			if as != nil {
+				fn := "SelRecv"
+				if len(as.Lhs) == 2 {
+					fn = "SelRecvOK"
+				}
+				get := &ast.AssignStmt{Lhs: as.Lhs, Tok: as.Tok, Rhs: []ast.Expr{&ast.CallExpr{Fun: r.vs(fn), Args: []ast.Expr{res, ch}}}}
+				clause.Body = append([]ast.Stmt{get}, cc.Body...)
+			} else {
+				clause.Body = cc.Body
+			}
+		}
+		sw.Body.List = append(sw.Body.List, clause)
+	}
+	if def != nil {
+		def.List = []ast.Expr{&ast.BasicLit{Kind: token.INT, Value: fmt.Sprint(n)}}
+		sw.Body.List = append(sw.Body.List, def)
+	}
+	sw.Init = &ast.AssignStmt{Lhs: []ast.Expr{res}, Tok: token.DEFINE, Rhs: []ast.Expr{&ast.CallExpr{Fun: r.vs("Select"), Args: args}}}
+	sw.Tag = &ast.SelectorExpr{X: res, Sel: ast.NewIdent("I")}
+	return sw
 }
 
 func simpleExpr(e ast.Expr) bool {
